@@ -149,8 +149,9 @@ def run(chk: core.Check) -> int:
         styles = ("rest",)
         if fmt in ("class", "function"):
             styles = ("rest", "google", "numpydoc")
+        k_fmt = per * 5 if fmt.startswith("docstring-") else per  # the docstring formats are cheap and carry most of the normalisers: explore them more
         for style in styles:
-            for _ in range(per // len(styles)):
+            for _ in range(k_fmt // len(styles)):
                 cases.append((gen_ir(rng, fmt), fmt, style, rng.random() < 0.5, 3 if chk.quick else 4))
     res = core.guarded_map(impl_rounds, cases, 30.0)
     dist = {}
